@@ -152,7 +152,19 @@ func genScopes(r *vgen.Rand) []instrumentation.Scope {
 	for i := 0; i < n; i++ {
 		if i > 0 && r.Chance(1, 2) {
 			base := out[len(out)-1]
-			switch r.Intn(3) {
+			switch r.Intn(4) {
+			case 3:
+				// the same scope with its empty attribute set spelled the other way (one scope for a
+				// reader, two keys for the code: its items may arrive in two groups of that scope)
+				if base.Attributes.Len() == 0 {
+					if base.Attributes == (attribute.Set{}) {
+						base.Attributes = attribute.NewSet()
+					} else {
+						base.Attributes = attribute.Set{}
+					}
+				} else {
+					base.Version = base.Version + ".2"
+				}
 			case 0:
 				base.Version = base.Version + ".1"
 			case 1:
@@ -165,13 +177,15 @@ func genScopes(r *vgen.Rand) []instrumentation.Scope {
 		}
 		s := instrumentation.Scope{Name: fmt.Sprintf("lib/%d", i), Version: vgen.Pick(r, []string{"", "v1.2.3", "0.1"}),
 			SchemaURL: vgen.Pick(r, schemaURLs)}
-		if r.Chance(1, 2) {
-			// A scope without attributes keeps the zero attribute.Set: the code uses the Scope value as
-			// a Go map key, for which attribute.NewSet() (no attributes) and the zero Set differ although
-			// every reader sees the same scope (see notes/C13.md, observations).
-			if set := attribute.NewSet(genAttrs(r, 3, true)...); set.Len() > 0 {
-				s.Attributes = set
-			}
+		switch r.Intn(8) {
+		case 0, 1, 2, 3:
+			// no attributes: the zero attribute.Set
+		case 4:
+			s.Attributes = attribute.NewSet() // no attributes, spelled as an allocated empty set
+		case 5:
+			s.Attributes = attribute.NewSet([]attribute.KeyValue{}...)
+		default:
+			s.Attributes = attribute.NewSet(genAttrs(r, 3, true)...) // may come out empty as well
 		}
 		if r.Chance(1, 12) {
 			s.Name = "" // a scope that only has a version / schema URL / attributes
